@@ -66,6 +66,14 @@ pub struct GenCfg {
     pub p_surplus: u32,
     /// percent: allow a key's count variable to be typed differently in another locale (an error)
     pub p_count_conflict: u32,
+    /// percent: a reference prefers a range / plural target when one exists
+    pub p_fk_counted: u32,
+    /// percent: the count variable passed to a referenced range / plural is shown again after the reference
+    pub p_count_reuse: u32,
+    /// percent: a range / plural declaration never shows its count in its arms
+    pub p_hide_count: u32,
+    /// when > 0: a reference key concatenates this many (up to +4) references (long substituted values)
+    pub fk_refs_min: usize,
 }
 
 impl Default for GenCfg {
@@ -96,6 +104,10 @@ impl Default for GenCfg {
             plural_locales_only: true,
             p_surplus: 0,
             p_count_conflict: 0,
+            p_fk_counted: 33,
+            p_count_reuse: 50,
+            p_hide_count: 33,
+            fk_refs_min: 0,
         }
     }
 }
@@ -389,6 +401,8 @@ impl<'t> Gen<'t> {
         let ty = force_ty.unwrap_or(drawn);
         let ty_written = ty != RangeTy::I32 || self.t.coin();
         let nb = self.t.range(0, 4);
+        // one declaration in three never shows its count (its arms then capture other members only)
+        let hide = (self.t.pick(100) as u32) < self.cfg.p_hide_count;
         let mut branches = vec![];
         let mut near = None;
         for _ in 0..nb {
@@ -404,7 +418,7 @@ impl<'t> Gen<'t> {
                 });
                 specs.push(s);
             }
-            let body = self.range_body(tag, rich_bodies);
+            let body = self.range_body(tag, rich_bodies, hide);
             branches.push(Branch {
                 specs,
                 body,
@@ -414,7 +428,7 @@ impl<'t> Gen<'t> {
             });
         }
         // fallback: always for floats; for ints always too (a non-exhaustive match does not compile)
-        let body = self.range_body(tag, rich_bodies);
+        let body = self.range_body(tag, rich_bodies, hide);
         branches.push(Branch {
             specs: vec![],
             body,
@@ -425,9 +439,15 @@ impl<'t> Gen<'t> {
         RangeDecl { ty, ty_written, branches }
     }
 
-    fn range_body(&mut self, tag: &str, rich: bool) -> Vec<Piece> {
+    fn range_body(&mut self, tag: &str, rich: bool, hide_count: bool) -> Vec<Piece> {
         let mut p = self.pieces(tag, self.cfg.max_comp_depth.saturating_sub(1), rich);
-        if self.t.chance(1, 3) {
+        if hide_count {
+            if rich && self.t.coin() {
+                let name = *self.t.choose(VAR_POOL);
+                p.push(self.var_piece(name));
+                p = normalize_pieces(p);
+            }
+        } else if self.t.chance(1, 3) {
             let mut v = self.var_piece("count");
             // the count itself may be shown through a formatter (`{{ count, number }}`)
             if self.cfg.formatters && (self.t.pick(100) as u32) < self.cfg.p_formatter.max(30) {
@@ -460,17 +480,18 @@ impl<'t> Gen<'t> {
 
     pub fn plural_decl(&mut self, tag: &str, rich: bool) -> PluralDecl {
         let ordinal = self.t.chance(1, 4);
+        let hide = (self.t.pick(100) as u32) < self.cfg.p_hide_count;
         let mut forms = vec![];
         for f in [Form::Zero, Form::One, Form::Two, Form::Few, Form::Many] {
             if self.t.chance(2, 5) {
-                forms.push((f, self.range_body(tag, rich)));
+                forms.push((f, self.range_body(tag, rich, hide)));
             }
         }
         if forms.is_empty() {
             // a single `_other` key is not a plural: need at least one more form
-            forms.push((Form::One, self.range_body(tag, rich)));
+            forms.push((Form::One, self.range_body(tag, rich, hide)));
         }
-        forms.push((Form::Other, self.range_body(tag, rich)));
+        forms.push((Form::Other, self.range_body(tag, rich, hide)));
         let perm = self.t.permutation(forms.len());
         let forms = perm.into_iter().map(|i| forms[i].clone()).collect();
         PluralDecl { ordinal, forms }
@@ -796,7 +817,7 @@ impl<'t> Gen<'t> {
                 }
             }
             let Some(name) = name else { continue };
-            let nrefs = self.t.weighted(&[5, 2, 1]) + 1;
+            let nrefs = if self.cfg.fk_refs_min > 0 { self.t.range(self.cfg.fk_refs_min, self.cfg.fk_refs_min + 4) } else { self.t.weighted(&[5, 2, 1]) + 1 };
             let locales = p.locales.clone();
             // choose target paths from the default locale's leaves (any namespace)
             let mut targets: Vec<(Option<String>, Vec<String>)> = vec![];
@@ -809,7 +830,13 @@ impl<'t> Gen<'t> {
                 if leaves.is_empty() {
                     continue;
                 }
-                let path = leaves[self.t.pick(leaves.len())].clone();
+                // one time in three prefer a range / plural target (references that pass or share a count)
+                let counted: Vec<Vec<String>> = leaves
+                    .iter()
+                    .filter(|path| matches!(p.file(tns.as_deref(), p.default_locale()).map(|o| crate::sem::lookup(o, path)), Some(crate::sem::Lookup::Val(Value::Range(_) | Value::Plural(_)))))
+                    .cloned()
+                    .collect();
+                let path = if !counted.is_empty() && (self.t.pick(100) as u32) < self.cfg.p_fk_counted { counted[self.t.pick(counted.len())].clone() } else { leaves[self.t.pick(leaves.len())].clone() };
                 targets.push((tns, path));
             }
             if targets.is_empty() {
@@ -868,7 +895,27 @@ impl<'t> Gen<'t> {
                         }
                     };
                     let fk = self.fk_to(tns.clone(), path.clone(), &tv, &tvars, &tag);
+                    // the run-time count of a referenced range / plural may also be shown next to the
+                    // reference (the same variable is then used after the range consumed it)
+                    let count_name: Option<String> = if matches!(tv, Value::Range(_) | Value::Plural(_)) {
+                        match fk.args.iter().find(|(k, _)| k == "count") {
+                            None => Some("count".to_string()),
+                            Some((_, Arg::Str(ps))) => match ps.as_slice() {
+                                [Piece::Var { name, .. }] => Some(name.clone()),
+                                _ => None,
+                            },
+                            Some(_) => None,
+                        }
+                    } else {
+                        None
+                    };
                     pieces.push(Piece::Fk(fk));
+                    if let Some(cn) = count_name {
+                        if (self.t.pick(100) as u32) < self.cfg.p_count_reuse {
+                            pieces.push(Piece::Text(self.text(&tag)));
+                            pieces.push(self.var_piece(&cn));
+                        }
+                    }
                 }
                 if self.t.coin() {
                     pieces.push(Piece::Text(self.text(&tag)));
